@@ -3,6 +3,11 @@
 import json, subprocess
 ALL=[f"C{i:02d}" for i in range(1,21)]
 CHECKS={
+ "C02": dict(level="exploration", engine="E1-dfs",
+   technique="exhaustive enumeration of stream compositions x buffer sizes x poll placements over real descriptors with raw peers, and of every (n, err) answer of a scripted io.ReadWriter under the AsyncAdapter; position-dependent byte generator as oracle",
+   text="Reads: every composition of an N-byte stream (N<=5 quick / 8 thorough) into buffers {1,2,3,5,8} with AsyncRead and AsyncReadAll re-issued from the callback, over Dial conn, accepted conn, FIFO file and AsyncAdapter; poll placement, late or forced-deferred start and a concurrent write are deviations (<=2/3). Writes: FIFO of 1-2 pages x 7 sizes x drain patterns (deterministic partial writes), TCP with minimal send buffer. Adapter with scripted ReadWriter: every sequence of {all, 1 byte, error, 1 byte+error} answers. Bytes, counts, *All contract, exactly-once and nothing-lost are checked on every execution.",
+   note="TCP split sizes are the kernel's (observed, not enumerated); each chunk is awaited on the receiving descriptor before the next step; payload values come from a fixed generator.",
+   design="4/C02"),
  "C04": dict(level="exploration", engine="E1-dfs",
    technique="deviation-bounded stateless DFS over timer action sequences on the real poller, expiry awaited on the timerfd (kernel-decided), reference timer model per schedule generation",
    text="Every action sequence up to depth 4/5 over two (optionally three, to reuse a closed timer's descriptor number) timers and a FIFO reader on one IO: ScheduleOnce/ScheduleRepeating with delays {<=0, 30us, 10s}, Cancel, Close, new timer, FIFO read, peer data, poll; handler behaviours from timer and I/O callbacks (cancel, close, cancel+re-arm, schedule on itself or the other timer) are deviations, all combinations up to 1/2. Each callback must belong to the live schedule generation, enter no earlier than its delay, and run within two polls once the kernel reports expiry; refused schedules change nothing; Scheduled() equals the model.",
